@@ -1,6 +1,7 @@
 """E3/E2 machinery shared by C06 (whole cone), C01 (book-keeping cone) and C07 (literal scanner
 and grouped printer): enumerate panic / divergence sources over a set of bodies and settle each
 by guard idiom, reviewed table entry with machine-checked support, or known finding."""
+import re
 from analysis import mir, panics, q
 from analysis.mir import norm, callee, callee_def, callee_names, prov
 from . import common, shared
@@ -598,13 +599,27 @@ class Surface:
                 pending.append(inst)
         # sites whose code moved (helper inlined into its caller, function renamed): same kind and operands as a tabled
         # site of the same source file whose own function no longer has it
+        def fuzz(desc):
+            # parameter / local names are not part of a site's identity once it has moved: keep the last field only
+            def tok(m):
+                w = m.group(0)
+                if re.fullmatch(r"[a-z_][a-z0-9_]*(\.[A-Za-z0-9_#]+)+", w):
+                    return "*." + w.rsplit(".", 1)[1]
+                if re.fullmatch(r"[a-z_][a-z0-9_]*", w):
+                    return "*"
+                return w
+            return re.sub(r"[^(),|]+", tok, desc)
         for inst in pending:
             portable = inst.key.split("|", 1)[1] if "|" in inst.key else inst.key
             moved = None
-            for k, e in self.entries.items():
+            for exact in (True, False):
+              if moved is not None:
+                  break
+              for k, e in self.entries.items():
                 if k in self.used or "|" not in k:
                     continue
-                if k.split("|", 1)[1].split("#")[0] == portable.split("#")[0]:
+                a1, b1 = k.split("|", 1)[1].split("#")[0], portable.split("#")[0]
+                if a1 == b1 if exact else (fuzz(a1) == fuzz(b1) and a1.split("|")[0] == b1.split("|")[0]):
                     fn = k.split("|", 1)[0]
                     ob = self.P.bodies.get(fn)
                     same_file = ob is None or ob.file == inst.body.file
